@@ -35,6 +35,21 @@ namespace occa {
     }
   }
 #endif
+#ifdef LIBOCCA_OCCA_VERIF
+  namespace verif {
+    static yieldFn_t yieldFn = NULL;
+
+    void setYield(yieldFn_t fn) {
+      yieldFn = fn;
+    }
+
+    void yield(int point) {
+      if (yieldFn) {
+        yieldFn(point);
+      }
+    }
+  }
+#endif
 
   modeDevice_t::modeDevice_t(const occa::json &properties_) :
     mode((std::string) properties_["mode"]),
